@@ -109,8 +109,26 @@ def r3_order_independent(cx):
             cx.check("comparator-reads-cipher:arg%d" % (p - 1), reads, site_of(cb),
                      "the ordering of the fold reads the cipher component of its argument %d: with equal speeds the result must not depend on the order of "
                      "the (user-ordered) list, otherwise two nodes with differently ordered lists select different ciphers" % (p - 1))
-        # the candidates iterate the configured list (user order): that is why the order must be total
-        src = deep_root(sel, ct["args"][0])
+        # the ordering must be a composition of total orders: no arithmetic on the speeds (tolerance-based
+        # "near ties" are not transitive, which makes max_by depend on the list order again)
+        closure_dids = prog.cg.closure([cb.did], kinds=("direct", "closure", "fnitem"))
+        arith = []
+        for d in closure_dids:
+            fb = prog.by_did[d]
+            if fb.file not in ("src/crypto/init.rs", "src/crypto/common.rs"):
+                continue
+            for bi, si, s2 in fb.stmts():
+                if s2["k"] == "assign" and s2["rv"]["k"] == "binop" and s2["rv"]["op"] in ("Add", "Sub", "Mul", "Div", "Rem"):
+                    pa = op_place(s2["rv"]["a"])
+                    ty = fb.place_ty(pa) if pa is not None else (prog.ty(s2["rv"]["a"]["ty"]) if s2["rv"]["a"]["k"] == "const" else None)
+                    if ty is not None and ty.k == "float":
+                        arith.append(site_of(fb, span=s2["span"]))
+            for bi, t2 in fb.calls():
+                c2 = t2.get("callee") or {}
+                if c2.get("path", "").startswith(("std::f32::<impl f32>::", "core::f32::<impl f32>::")) and c2.get("name") in ("abs", "max", "min", "round", "floor", "ceil", "trunc", "signum", "clamp", "mul_add"):
+                    arith.append(site_of(fb, bi))
+        cx.check("ordering-is-exact", not arith, arith[0] if arith else site_of(cb),
+                 "the fold's ordering uses exact comparisons only (found float arithmetic at %s)" % arith if arith else "the fold's ordering uses exact comparisons only (no arithmetic / tolerance on the speeds)")
 
 
 def r4_lists_inside_signed_range(cx):
